@@ -372,10 +372,32 @@ func c19R2(p *core.Program, r *core.Report) {
 		r.Errorf("contactql.NewCondition not found")
 		return
 	}
+	// a block tests the redaction policy when it calls RedactionPolicy() itself or a helper of the package that does
+	// (an extracted `checkURNsNotRedacted(value)`)
+	var fnTestsPolicy func(f *ssa.Function, depth int) bool
+	fnTestsPolicy = func(f *ssa.Function, depth int) bool {
+		if f == nil || len(f.Blocks) == 0 || depth > 2 || core.RelPkg(core.FuncPkgPath(f)) != "contactql" {
+			return false
+		}
+		for _, cs := range core.Calls(f, false) {
+			if cs.Common().IsInvoke() && cs.Common().Method.Name() == "RedactionPolicy" {
+				return true
+			}
+			if fnTestsPolicy(cs.Common().StaticCallee(), depth+1) {
+				return true
+			}
+		}
+		return false
+	}
 	hasPolicyCall := func(b *ssa.BasicBlock) bool {
 		for _, in := range b.Instrs {
-			if c, ok := in.(*ssa.Call); ok && c.Call.IsInvoke() && c.Call.Method.Name() == "RedactionPolicy" {
-				return true
+			if c, ok := in.(*ssa.Call); ok {
+				if c.Call.IsInvoke() && c.Call.Method.Name() == "RedactionPolicy" {
+					return true
+				}
+				if fnTestsPolicy(c.Call.StaticCallee(), 0) {
+					return true
+				}
 			}
 		}
 		return false
